@@ -14,6 +14,7 @@ structure CrashSt where
 def showStep : Step → String
   | .write n _ => s!"w{n}"
   | .row t v _ => s!"r{t}/{v}"
+  | .rows t rs => s!"R{t}/{rs.length}"
 
 def crashHandle (e : EngineSt) (c : CrashSt) (cmd : String) (a : Args) : EngineSt × CrashSt × String :=
   match cmd with
